@@ -373,3 +373,40 @@ func Replay(rp *evidence.Replay) int {
 
 // Digest is the determinism probe used by `./check selftest`.
 func Digest(opt Options, n, k int) (string, error) { return scripteng.Digest(spec(opt), n, k) }
+
+// RunLargeCollect runs the large-configuration workload (history invariants + porcupine + bounded liveness).
+func RunLargeCollect(opt Options) (int, *evidence.Evidence) {
+	sp := spec(opt)
+	sp.Curated = nil
+	sp.Rule = "workload A' (large configurations): one evaluation = one simulated execution of a 5-8 goroutine chanscript scenario under one choice tape, judged by history invariants, per-channel linearizability (porcupine, bounded FIFO queue with close) and a lost-wake-up check on the final state"
+	sp.Generate = func(seed int64, i int) scripteng.Case {
+		sc := generateLarge(rng.New(seed, opt.Property, "large", i))
+		if err := sc.Validate(); err != nil {
+			panic("large generator produced an invalid scenario: " + err.Error())
+		}
+		return &largeCase{sc}
+	}
+	sp.Decode = func(raw json.RawMessage) (scripteng.Case, error) {
+		var sc chanmodel.Scenario
+		if err := json.Unmarshal(raw, &sc); err != nil {
+			return nil, err
+		}
+		sc.Normalise()
+		return &largeCase{&sc}, nil
+	}
+	sp.ReplayKind = "chanscript-large"
+	return scripteng.RunCollect(sp)
+}
+
+func ReplayLarge(rp *evidence.Replay) int {
+	sp := spec(Options{Property: rp.Property})
+	sp.Decode = func(raw json.RawMessage) (scripteng.Case, error) {
+		var sc chanmodel.Scenario
+		if err := json.Unmarshal(raw, &sc); err != nil {
+			return nil, err
+		}
+		sc.Normalise()
+		return &largeCase{&sc}, nil
+	}
+	return scripteng.Replay(sp, rp)
+}
